@@ -31,6 +31,47 @@ func checkC08(c *Ctx) {
 	// "exactly when a quorum timed out", forming direction: a timeout is left out of the collection only because it
 	// could not be verified (shared with C05.12: no drop on view distance or any other heuristic)
 	c05DropOnlyUnverified(c, "C08.9")
+	// C08.10 a replica whose view timer fired always contributes its timeout: both local timeout rules refuse only
+	// when signing failed, and what they return otherwise is the signed message for the view they were given
+	for _, t := range []string{"Simple", "Aggregate"} {
+		ltr := p.Method("protocol/synchronizer", t, "LocalTimeoutRule")
+		if ltr == nil {
+			c.Unresolved("C08.10", t+".LocalTimeoutRule", "anchor missing")
+			continue
+		}
+		fr := NewFlow(p, ltr)
+		var bad []string
+		nErr := 0
+		for _, r := range returnsOf(ltr) {
+			if !fr.Reachable(r.Block()) || len(r.Results) != 2 {
+				continue
+			}
+			refuses := false
+			for _, lf := range leaves(fr, retValue(r, 1), r) {
+				if !isNilConst(lf.Val) {
+					refuses = true
+				}
+			}
+			if !refuses {
+				continue
+			}
+			nErr++
+			signFailed := func(f Fact) bool {
+				return f.Op == "!=" && oneIsNil(f) && strings.Contains(nonNil(f), ".Sign(") && strings.HasSuffix(nonNil(f), "#1")
+			}
+			ok := branchDominates(fr, r, signFailed)
+			for f := range fr.At(r) {
+				if signFailed(f) {
+					ok = true
+				}
+			}
+			if !ok {
+				bad = append(bad, p.Pos(r.Pos()))
+			}
+		}
+		c.Check(len(bad) == 0, "C08.10", t+".LocalTimeoutRule: refuses only when signing failed", p.FuncPos(ltr),
+			itoa(nErr)+" error return(s), each under a failed auth.Sign", "an error is returned at "+join(bad)+" although signing did not fail: the replica never sends its timeout, and with f such replicas no view ever times out")
+	}
 
 	ort := p.Method("protocol/synchronizer", "Synchronizer", "OnRemoteTimeout")
 	add := p.Method("protocol/synchronizer", "timeoutCollector", "add")
